@@ -57,11 +57,15 @@ impl ServiceTargetActor {
                             self.helper.send_to_actor(requester, msg).await
                         }
                         ActorInputMessage::Requested { kind: ExecutionKind::Service, requester } => {
-                            let inserted = self.helper.requesters.get_mut(&ExecutionKind::Service).unwrap().insert(requester);
+                            let inserted = self.helper.requesters.get_mut(&ExecutionKind::Service).unwrap().insert(requester.clone());
 
                             if inserted && self.helper.requesters[&ExecutionKind::Service].len() == 1 {
                                 self.helper.request_dependencies(ExecutionKind::Build).await;
                                 self.helper.request_dependencies(ExecutionKind::Service).await;
+                            }
+
+                            if inserted {
+                                self.helper.notify_late_requester(ExecutionKind::Service, requester).await;
                             }
                         }
                         ActorInputMessage::Unrequested { kind, requester } => {
